@@ -54,6 +54,9 @@ Verdict(cs) ==
   ELSE IF \E i, j \in 1..n : i < j /\ names[i] = names[j] THEN V13(FALSE, "unique", "unique:procedure-twice", "")
   ELSE IF \E i \in 1..(n - 2) : ~StrLt(onames[i], onames[i + 1]) THEN V13(FALSE, "order", "order:dependencies-not-ascending", "")
   ELSE IF HasPlaceholder(cs.out) THEN V13(FALSE, "placeholder", "placeholder:left-in-output", "")
+  \* (needs no parse: the program part of the bundle against the same conversion without dependencies)
+  ELSE IF ~LinesEq(NonBlank(SubSeq(cs.out, fs[n].first + 1, fs[n].last)), NonBlank(cs.plain)) THEN
+       V13(FALSE, "user-text-intact", "user-text-intact:program-text-changed-by-bundling", "")
   ELSE IF badparse # {} THEN V13(TRUE, "unjudged", "bundle-member-does-not-parse", fs[CHOOSE k \in badparse : TRUE].name)
   ELSE IF \E k \in 1..n : RunTargets(fs[k].prog.code) \ ({ names[j] : j \in 1..n } \cup SystemModules) # {} THEN
        LET k == CHOOSE x \in 1..n : RunTargets(fs[x].prog.code) \ ({ names[j] : j \in 1..n } \cup SystemModules) # {} IN
@@ -68,8 +71,6 @@ Verdict(cs) ==
                 want == NonBlank([i \in 1..(L.last - L.first + 1) |-> Subst(liblines[L.first + i - 1], cs.size)])
                 got == NonBlank(SubSeq(cs.out, fs[k].first, fs[k].last)) IN ~LinesEq(want, got) THEN
        V13(FALSE, "library", "library:procedure-text-differs-or-placeholder-wrong", "")
-  ELSE IF ~LinesEq(NonBlank(SubSeq(cs.out, fs[n].first + 1, fs[n].last)), NonBlank(cs.plain)) THEN
-       V13(FALSE, "user-text-intact", "user-text-intact:program-text-changed-by-bundling", "")
   ELSE V13(TRUE, "ok", "", ToString(n))
 VARIABLES ci, vd
 Init == ci \in 1..Len(Cases) /\ vd = [clause |-> "todo"]
